@@ -90,6 +90,10 @@ PROPS["C06"] = {
           ["MappingWriter::new", "MappingWriter::add_entry", "MappingWriter::into_buffer"],
           "every sequence of 4 add_entry calls; columns, original positions, source and name indices symbolic in [0, 2^62); generated line non-decreasing, advancing by 0..3 per entry",
           timeout=900, mem_gb=10),
+        H("source_writer_cursor_two_writes", "sourcemap-writer", SW + "source_writer.rs", "sourcemap_writer/source_writer_h.rs", "verif_source_writer",
+          ["SourceWriter::new", "SourceWriter::write", "SourceWriter::flush_pending_indent", "utf16_len"],
+          "two write() calls, each text 0..2 chars from {a, LF, U+1F600}, with or without a 2-space indentation level; CharSearcher::next_match stubbed (layout witness harness)",
+          tiers=("thorough",), timeout=5400, mem_gb=32),
         H("utf16_len_3chars", "sourcemap-writer", SW + "source_writer/utf16_len.rs", "sourcemap_writer/utf16_h.rs", "verif_utf16",
           ["utf16_len"], "strings of 0..3 arbitrary Unicode scalar values (all 0x110000-0x800 of them per position)",
           timeout=600, mem_gb=8),
